@@ -284,7 +284,7 @@ def triage(r):
     if k == "del-expr" and "_require" in old:
         return "call of a type guard helper (misuse)"
     if k in ("nameswap", "attrswap", "del-store"):
-        if "element_size_bits" in old or (f == "groups.py" and r["line"] == 121):
+        if "element_size_bits" in old or (f == "groups.py" and r["line"] in (121, 138) and old in ("p", "q")):
             return "element_size_bits is read by nothing in the package and named by no property"
         if w == "__init__" and old in ("idA", "idB"):
             return "type assertion checks the other identity twice (misuse)"
@@ -296,6 +296,8 @@ def triage(r):
             return "the range assertion is equally true of x"
         if f == "ed25519_group.py":
             return "scalar_size_bytes = element_size_bytes = 32 for Ed25519"
+        if w == "number_to_bytes" and old == "num":
+            return "guard for negative numbers, which are outside the domain 0 <= n <= maxval: only the exception class changes"
         if w == "size_bits":
             return "Python 2.6 fallback, dead on Python 3"
         if f == "params.py":
